@@ -88,6 +88,15 @@ reg("C09",
     "expansion recorder + structural token-diff oracle modulo the documented rewrite", "DESIGN.md §4 C09")
 
 
+reg("C06",
+    "Exploration by runtime monitoring: random leaf traits with hand-written providers are compiled and run; a trace monitor in "
+    "the provider methods records (provider fn id, provider type, provider address, Debug of arguments); every call on Impl<App> is "
+    "compared with the call on the provider itself (exactly one provider event, same identity/arguments/result, awaited when async), "
+    "and autoref probes compare `Impl<X>: Trait` with the availability model for provider / non-provider / !Sync / wrong-selector apps.",
+    "'static cannot be probed at run time; dyn selectors follow the idioms rustc requires (async needs async_trait, `: 'static`).",
+    "runtime trace monitor + differential twin + trait-availability probes", "DESIGN.md §4 C06")
+
+
 def manifest():
     hooks_commits = subprocess.run(["git", "-C", "/repo", "log", "--format=%H", "--grep=^verif hook"],
                                    stdout=subprocess.PIPE, text=True).stdout.split()
